@@ -112,6 +112,10 @@ def header_mapping(ctx, rid, names):
     ctx.need(stores, rid + ": no environ store in the header loop")
     lstores = [s for s in g.stmts(ast.Assign) if len(s.ast.targets) == 1 and isinstance(s.ast.targets[0], ast.Name) and isinstance(s.ast.value, ast.Name) and s.ast.value.id == HV
                and any(a is loop.ast for a in f.module.ancestors(s.ast))]
+    # (only a local that outlives the iteration can steer anything: one that is read outside the header loop -- a temporary of
+    # the loop body, e.g. the parameter of an expanded helper, is nobody's memory)
+    read_outside = set(n.id for n in ast.walk(f.node) if isinstance(n, ast.Name) and isinstance(n.ctx, ast.Load) and not any(a is loop.ast for a in f.module.ancestors(n)))
+    lstores = [s for s in lstores if s.ast.targets[0].id in read_outside]
     probes = {}
     for s in stores:
         t = s.ast.targets[0]
